@@ -20,7 +20,7 @@ THEOREMS = [
     "IblSpec.settleSpec_terminates", "IblSpec.settleSpec_unique_rest",
     "IblSpec.orient_eq_dims", "IblSpec.window2_eq_bin",
     "IblSpec.decode1_eq_nextFit", "IblSpec.decode2_eq_firstFit",
-    "IblSpec.decode1_stateless", "IblSpec.decode2_stateless", "IblSpec.decode_sequence_stateless",
+    "IblSpec.decode2_stateless", "IblSpec.decode_sequence_stateless",
 ]
 
 
